@@ -910,8 +910,52 @@ fn text() -> BoxedStrategy<String> {
         }),
         1 => (proptest::sample::select(templates.clone()), proptest::sample::select(templates)).prop_map(|(a, b)| format!("{}{}", &a[..a.len() / 2], &b[b.len() / 2..])),
         1 => ".{0,24}",
+        // Unicode look-alikes: one ASCII digit / sign / separator / letter of a template replaced by a non-ASCII
+        // character of the same Unicode class (digits of other scripts, full-width forms, U+2212, the Kelvin sign..):
+        // code that validates with `char::is_numeric` / `is_alphabetic` / `to_lowercase` and then assumes ASCII
+        2 => (proptest::sample::select(templates_for_confusables()), any::<usize>(), any::<u8>()).prop_map(|(t, pos, pick)| {
+            let chars: Vec<char> = t.chars().collect();
+            if chars.is_empty() {
+                return "\u{ff10}".to_string();
+            }
+            // find a position (cyclically from `pos`) whose character has a look-alike
+            for k in 0..chars.len() {
+                let i = (pos % chars.len() + k) % chars.len();
+                let c = chars[i];
+                let alt: &[char] = match c {
+                    '0'..='9' => &['\u{ff10}', '\u{0660}', '\u{0966}', '\u{00b2}', '\u{2460}', '\u{00bd}', '\u{1d7ce}', '\u{2160}'],
+                    '+' => &['\u{ff0b}', '\u{207a}'],
+                    '-' => &['\u{2212}', '\u{2010}', '\u{ff0d}'],
+                    ':' => &['\u{ff1a}', '\u{2236}'],
+                    '.' => &['\u{ff0e}', '\u{3002}'],
+                    'K' | 'k' => &['\u{212a}'],
+                    'T' => &['\u{ff34}', '\u{03a4}'],
+                    'Z' => &['\u{ff3a}', '\u{0396}'],
+                    'P' => &['\u{ff30}', '\u{03a1}'],
+                    'M' => &['\u{ff2d}', '\u{039c}'],
+                    'S' | 's' => &['\u{017f}'],
+                    'A'..='Z' | 'a'..='z' => &['\u{00e9}', '\u{0131}', '\u{0130}'],
+                    _ => continue,
+                };
+                let mut out: Vec<char> = chars.clone();
+                // a digit from another script keeps the digit's value where such a character exists
+                out[i] = match (c, alt[pick as usize % alt.len()]) {
+                    (d @ '0'..='9', base @ ('\u{ff10}' | '\u{0660}' | '\u{0966}' | '\u{1d7ce}')) => char::from_u32(base as u32 + (d as u32 - '0' as u32)).unwrap_or(base),
+                    (_, a) => a,
+                };
+                return out.into_iter().collect();
+            }
+            t.to_string()
+        }),
     ]
     .boxed()
+}
+fn templates_for_confusables() -> Vec<&'static str> {
+    vec![
+        "+05:30", "-08:00", "+01:30:15.5", "+00", "-0130", "2020-01-01", "2020-01-01T12:30:45.123456789", "2020-01-01T00:00Z", "2020-01-01T00:00+01:00[Europe/Paris]", "2020-01-01[u-ca=japanese]",
+        "12:30", "T123045", "PT1H30M", "P1Y2M3W4DT5H6M7.5S", "-P1D", "2020-01", "--01-01", "01-01", "M05L", "M12", "Asia/Kolkata", "America/New_York", "Europe/Kyiv", "Etc/GMT+5", "UTC", "iso8601",
+        "islamic-umalqura", "2020-01-01T00:00+01:00[+01:00]", "1970-01-01T00:00:60Z",
+    ]
 }
 fn zone_arg() -> BoxedStrategy<ZoneArg> {
     let names = iana_names().clone();
